@@ -76,11 +76,24 @@ def fail_kind(e):
 class Src:
     """source iterable: ('ok', v) | ('fail', is_exception, tag); advancing it is a yield point"""
     def __init__(self, s, spec, pu=None):
+        self.iterfail = bool(spec) and spec[0][0] == 'iterfail'
+        spec = [('fail',) + tuple(e[1:]) if e[0] == 'iterfail' else e for e in spec]
         self.s, self.spec, self.i, self.dead, self.pu = s, spec, 0, False, pu
         self.pulls_after_end = 0
         self.ended = False         # set by the driver when control is back with the consumer for good
 
-    def __iter__(self): return self
+    def __iter__(self):
+        if self.iterfail and not self.dead:
+            # a source that cannot even be started: iter() itself raises (for the model: a source whose first pull fails)
+            e = self.spec[0]
+            self.s.yield_point('pull')
+            if self.ended:
+                self.pulls_after_end += 1
+            self.dead = True
+            self.i = 1
+            self.s.emit('pull', ('fail', e[2]))
+            raise src_exc_class(self.pu, fail_kind(e))(Tag(e[2]))
+        return self
 
     def __next__(self):
         self.s.yield_point('pull')
@@ -110,6 +123,8 @@ def run_st(pu, spec, B, script, schedule, rng, wall=20.0, fallback='random'):
     s = S.Sched(schedule, rng, wall, fallback)
     undo = S.install(pu, s)
     src = Src(s, spec, pu)
+    iterfail = src.iterfail
+    spec = src.spec
     delivered, outcome = [], None
     K = None if script[0] == 'exhaust' else script[1]
     old_trace = sys.gettrace()
@@ -167,7 +182,7 @@ def run_st(pu, spec, B, script, schedule, rng, wall=20.0, fallback='random'):
         s.cv.notify_all()
     for t in s.os_threads:
         t.join(2.0)
-    return dict(kind='st', spec=spec, B=B, script=script, schedule=list(schedule), choices=s.choices, enabled_log=s.enabled_log, log=s.log,
+    return dict(kind='st', spec=spec, iterfail=iterfail, B=B, script=script, schedule=list(schedule), choices=s.choices, enabled_log=s.enabled_log, log=s.log,
                 delivered=delivered, outcome=outcome, worker_done_at_return=worker_done_at_return,
                 pulls_after_end=src.pulls_after_end, threads_alive=sum(t.is_alive() for t in s.os_threads), K=K)
 
@@ -282,6 +297,8 @@ def run_pool(pu, spec, B, W, bad, script, schedule, rng, wall=20.0, fallback='ra
     s = S.Sched(schedule, rng, wall, fallback)
     undo = S.install(pu, s)
     src = Src(s, spec, pu)
+    iterfail = src.iterfail
+    spec = src.spec
     fn = Fn(s, bad, pu, exc_kind)
     delivered, outcome = [], None
     K = None if script[0] == 'exhaust' else script[1]
@@ -337,7 +354,7 @@ def run_pool(pu, spec, B, W, bad, script, schedule, rng, wall=20.0, fallback='ra
         s.cv.notify_all()
     for t in s.os_threads:
         t.join(2.0)
-    return dict(kind='pool', spec=spec, B=B, W=W, bad=sorted(bad), exc_kind=exc_kind, script=script, schedule=list(schedule), choices=s.choices, enabled_log=s.enabled_log,
+    return dict(kind='pool', spec=spec, iterfail=iterfail, B=B, W=W, bad=sorted(bad), exc_kind=exc_kind, script=script, schedule=list(schedule), choices=s.choices, enabled_log=s.enabled_log,
                 log=s.log, delivered=delivered, outcome=outcome, calls=fn.calls, calls_after_end=fn.calls_after_end,
                 pulls_after_end=src.pulls_after_end, threads_alive=sum(t.is_alive() for t in s.os_threads), K=K)
 
@@ -475,7 +492,7 @@ def gen_spec(r, nmax, fail_rate=0.35, base_kinds=SRC_BASE):
     if spec and r.random() < fail_rate or (not spec and r.random() < 0.2):
         pos = r.randint(0, len(spec))
         is_exc = r.random() < 0.7
-        spec.insert(pos, ('fail', is_exc, 90 + pos, r.choice(SRC_EXC if is_exc else base_kinds)))
+        spec.insert(pos, ('iterfail' if pos == 0 and r.random() < 0.5 else 'fail', is_exc, 90 + pos, r.choice(SRC_EXC if is_exc else base_kinds)))
     return spec
 
 
@@ -584,7 +601,7 @@ def pool_summary_ok(run, sm):
 
 # ------------------------------------------------------------------ the engine shared by C04..C07
 def _cfg_key(run):
-    return (run['kind'], tuple(run['spec']), run['B'], run.get('W'), tuple(run.get('bad', ())), run.get('exc_kind'), run['script'])
+    return (run['kind'], tuple(run['spec']), run.get('iterfail'), run['B'], run.get('W'), tuple(run.get('bad', ())), run.get('exc_kind'), run['script'])
 
 
 def _log_key(run):
@@ -637,7 +654,7 @@ def run_e(prop, tier, n_st=350, n_pool=350, dfs_budget=500, long_runs=30):
     n_random = len(runs)
     # -- systematic exploration of ALL schedules of tiny configurations
     tiny_st = [([('ok', 1)], 1, ('exhaust',)), ([('ok', 1), ('ok', 2)], 1, ('close', 1)), ([('ok', 1), ('fail', True, 91)], 1, ('exhaust',)),
-               ([('ok', 1), ('ok', 2)], 2, ('close', 1)), ([], 1, ('exhaust',)), ([('ok', 1), ('ok', 2), ('ok', 3)], 1, ('close', 2))]
+               ([('ok', 1), ('ok', 2)], 2, ('close', 1)), ([], 1, ('exhaust',)), ([('iterfail', True, 90)], 1, ('exhaust',)), ([('iterfail', False, 90, 'GeneratorExit')], 2, ('exhaust',)), ([('ok', 1), ('ok', 2), ('ok', 3)], 1, ('close', 2))]
     tiny_pool = [([('ok', 1), ('ok', 2)], 1, 1, [], ('exhaust',)), ([('ok', 1), ('ok', 2)], 2, 2, [], ('close', 1)),
                  ([('ok', 1), ('ok', 2), ('ok', 3)], 2, 2, [2], ('exhaust',)), ([('ok', 1), ('fail', True, 91)], 2, 2, [], ('exhaust',))]
     dfs_info = []
@@ -719,7 +736,7 @@ def run_e(prop, tier, n_st=350, n_pool=350, dfs_budget=500, long_runs=30):
 
 
 def _run_json(run):
-    return dict(kind=run['kind'], spec=run['spec'], B=run['B'], W=run.get('W'), bad=run.get('bad'), exc_kind=run.get('exc_kind'), script=run['script'],
+    return dict(kind=run['kind'], spec=run['spec'], iterfail=run.get('iterfail', False), B=run['B'], W=run.get('W'), bad=run.get('bad'), exc_kind=run.get('exc_kind'), script=run['script'],
                 choices=run['choices'], outcome=run['outcome'], delivered=run['delivered'],
                 log=[(t, e, 'S' if is_sentinel(p) else p) for t, e, p in run['log']])
 
@@ -730,6 +747,8 @@ def replay_e(payload, prop):
     c = payload['config']
     r = random.Random(0)
     spec = [tuple(e) for e in c['spec']]
+    if c.get('iterfail') and spec:
+        spec[0] = ('iterfail',) + spec[0][1:]
     if c['kind'] == 'st':
         run = run_st(pu, spec, c['B'], tuple(c['script']), c['choices'], r, fallback='first')
         fs = st_direct(run)
@@ -822,6 +841,11 @@ def backend_checks(ld, r, tier, prop):
                             t = {x: ('val', r.choice([None, None, 0, '', (), False])) for x in range(n) if r.random() < 0.4}
                             tables.append((t, None))
                             tables.append((t, True))
+                        # examples dropped by catch_filter_exception (flag, single class, tuple of classes): everything else is delivered
+                        for catch in ([True, (KeyError, ld.FilterException)] if quick else [True, KeyError, (KeyError, ld.FilterException), (ld.FilterException,)]):
+                            cl = ['FilterException'] if catch is True or catch == (ld.FilterException,) else (['KeyError'] if catch is KeyError else ['KeyError', 'FilterException'])
+                            t = {x: ('raise', r.choice(cl)) for x in range(n) if r.random() < 0.4}
+                            tables.append((t, catch))
                     else:
                         # a hard failure of every class at every position (thread backend) / a sample (process pools)
                         combos = [(c, p) for c in classes for p in range(n)]
@@ -835,22 +859,22 @@ def backend_checks(ld, r, tier, prop):
                             for x in range(n):
                                 if x != p and r.random() < 0.25:
                                     t[x] = r.choice([('raise', 'FilterException'), ('val', None), ('raise', 'FilterException')])
-                            tables.append((t, r.choice([None, True, True, (KeyError,), (ld.FilterException, IndexError)])))
+                            tables.append((t, r.choice([None, None, False, True, True, (KeyError,), (ld.FilterException, IndexError), KeyError])))
                     for (t, catch) in tables:
-                        if catch is not None and be in ('concurrent_mp', 'multiprocessing'):
+                        if catch and be in ('concurrent_mp', 'multiprocessing'):
                             continue        # plain pickle cannot transfer the local catcher function: refused loudly (AttributeError) before any example
                         src = ld.new({f'k{i:02d}': i for i in range(n)})
                         fn = BFn(t)
-                        ctypes = None if catch is None else ((ld.FilterException,) if catch is True else tuple(catch))
+                        ctypes = None if not catch else ((ld.FilterException,) if catch is True else (catch,) if isinstance(catch, type) else tuple(catch))
                         exp = b_reference(n, t, ctypes)
                         variants = [('prefetch', lambda: src.map(fn).prefetch(w, b, backend=be, catch_filter_exception=catch))]
-                        if catch is None:
+                        if not catch:
                             variants.append(('parmap', lambda: src.map(fn, num_workers=w, buffer_size=b, backend=be)))
                         if thread:
                             # the single-thread path of the same call, value and key iteration
                             variants.append(('prefetch(1)', lambda: src.map(fn).prefetch(1, b, catch_filter_exception=catch)))
                             variants.append(('prefetch(1).items', lambda: src.map(fn).prefetch(1, b, catch_filter_exception=catch).items()))
-                            if catch is None:
+                            if not catch:
                                 variants.append(('parmap.items', lambda: src.map(fn, num_workers=w, buffer_size=b, backend=be).items()))
                         for name, make in variants:
                             runs += 1
